@@ -49,6 +49,10 @@ class StrandnessReportingLevel(Enum):
 class GraphBasedModelConstructor:
     detected_known_isoforms = set()
     extended_transcript_ids = set()
+    # (strand, intron chain) of the novel spliced models already reported on this chromosome by the constructors of other
+    # (sub-)regions: reads of one novel isoform that bridge a region cut are distributed over two constructors, each of
+    # which would report the chain (cleared per chromosome task, like detected_known_isoforms)
+    reported_novel_chains = set()
 
     def __init__(self, gene_info, chr_record, params, transcript_counter, id_distributor):
         self.gene_info = gene_info
@@ -132,6 +136,7 @@ class GraphBasedModelConstructor:
         self.pre_filter_transcripts()
         self.assign_reads_to_models(read_assignment_storage)
         self.filter_transcripts()
+        self.drop_novel_chains_reported_elsewhere()
         # reassign reads
         self.assign_reads_to_models(read_assignment_storage)
         self.forward_counts()
@@ -281,6 +286,21 @@ class GraphBasedModelConstructor:
             self.read_assignment_counts[a.read_id] -= 1
         del self.transcript_read_ids[transcript_id]
         del self.internal_counter[transcript_id]
+
+    def drop_novel_chains_reported_elsewhere(self):
+        kept = []
+        own_chains = set()
+        for model in self.transcript_model_storage:
+            if model.transcript_type != TranscriptModelType.known and len(model.exon_blocks) > 1:
+                chain = (model.strand, tuple(junctions_from_blocks(model.exon_blocks)))
+                if chain in GraphBasedModelConstructor.reported_novel_chains:
+                    self.delete_from_storage(model.transcript_id)
+                    continue
+                own_chains.add(chain)
+            kept.append(model)
+        self.transcript_model_storage = kept
+        # compared with LATER constructors only: what a single constructor reports is unchanged
+        GraphBasedModelConstructor.reported_novel_chains.update(own_chains)
 
     def filter_transcripts(self):
         pre_filtered_storage = []
